@@ -93,6 +93,8 @@ pub struct Evaluator<'a> {
     pub consts: &'a dyn Fn(&str) -> Option<Val>,
     /// user-defined operators / calls: (name, args) -> result
     pub call_hook: &'a dyn Fn(&Evaluator, &str, &[Val]) -> Option<Result<Val, String>>,
+    /// crate fns that may be evaluated interprocedurally: name -> (param names, body)
+    pub inline: Option<&'a BTreeMap<String, (Vec<String>, syn::Block)>>,
 }
 
 thread_local! {
@@ -732,6 +734,38 @@ impl<'a> Evaluator<'a> {
                 if let Some(r) = (self.call_hook)(self, &tok(&c.func), &args) {
                     return r;
                 }
+                if let Some(tbl) = self.inline {
+                    if let Some((params, body)) = tbl.get(&name) {
+                        let mut e2 = Env::new();
+                        for (pn, a) in params.iter().zip(args.iter()) {
+                            e2.insert(pn.clone(), a.clone());
+                        }
+                        let r = self.eval_fn_body(body, &mut e2)?;
+                        // write back `&mut place` arguments
+                        for (pn, ae) in params.iter().zip(c.args.iter()) {
+                            if let syn::Expr::Reference(rf) = ae {
+                                if rf.mutability.is_some() {
+                                    if let (Some(place), Some(nv)) = (self.place_of(&rf.expr), e2.get(pn)) {
+                                        if let Some(t) = place_get_mut(env, &place) {
+                                            *t = nv.clone();
+                                        }
+                                    }
+                                }
+                            } else if let Some(place) = self.place_of(ae) {
+                                // a `&mut Vec` parameter forwarded by name
+                                if let (Some(Val::List(_)), Some(nv)) = (env.get(&place.0), e2.get(pn)) {
+                                    if place.1.is_empty() {
+                                        let nv = nv.clone();
+                                        if let Val::List(_) = nv {
+                                            env.insert(place.0.clone(), nv);
+                                        }
+                                    }
+                                }
+                            }
+                        }
+                        return Ok(r);
+                    }
+                }
                 let full = tok(&c.func);
                 if (full == "String::from" || full == "String::new" || full.ends_with("::to_owned") || full == "Box::new" || full == "Some" && false) && args.len() <= 1 {
                     return Ok(args.into_iter().next().unwrap_or(Val::Str(String::new())));
@@ -826,6 +860,10 @@ impl<'a> Evaluator<'a> {
                     match name.as_str() {
                         "iter" | "into_iter" | "iter_mut" | "clone" | "to_owned" | "as_ref" | "as_slice" | "to_vec" => return Ok(recv.clone()),
                         "len" => return Ok(Val::int(items.len() as i128)),
+                        "chunks" => {
+                            let n = match self.eval(&mc.args[0], env)? { Val::Int { v, .. } if v > 0 => v as usize, o => return Err(format!("chunks({})", o.show())) };
+                            return Ok(Val::List(items.chunks(n).map(|c| Val::List(c.to_vec())).collect()));
+                        }
                         "is_empty" => return Ok(Val::Bool(items.is_empty())),
                         "first" => return Ok(items.first().cloned().map(Val::some).unwrap_or(Val::none())),
                         "collect" | "peekable" | "by_ref" | "into_values" | "values" | "chars_list" => return Ok(recv.clone()),
@@ -985,6 +1023,13 @@ impl<'a> Evaluator<'a> {
                     "unwrap_or_default" if is_none => Ok(Val::List(vec![])),
                     "unwrap" | "expect" if is_some => Ok(inner.unwrap()),
                     "into" | "clone" | "to_owned" | "as_ref" | "as_deref" | "to_string" | "as_str" | "copied" | "cloned" | "borrow" | "as_mut" | "into_iter" | "iter" | "iter_mut" | "to_vec" => Ok(recv),
+                    "pow" if matches!(recv, Val::Int { input: false, .. }) => {
+                        let e = self.eval(&mc.args[0], env)?;
+                        match (&recv, e) {
+                            (Val::Int { v, .. }, Val::Int { v: e, .. }) if (0..=126).contains(&e) => Ok(Val::int(v.checked_pow(e as u32).ok_or("pow overflow")?)),
+                            _ => Err("pow: bad arguments".into()),
+                        }
+                    }
                     "is_some" if is_some || is_none => Ok(Val::Bool(is_some)),
                     "is_none" if is_some || is_none => Ok(Val::Bool(is_none)),
                     "unwrap_or" if is_some || is_none => {
@@ -1041,6 +1086,20 @@ impl<'a> Evaluator<'a> {
                 Val::Ctor(n, p, f) if n == "Err" || n == "None" => Ok(Val::Ctor("$return".into(), vec![Val::Ctor(n, p, f)], BTreeMap::new())),
                 o => Ok(o),
             },
+            Expr::Range(r) => {
+                let lo = match &r.start { Some(e) => self.eval(e, env)?, None => Val::int(0) };
+                let hi = match &r.end { Some(e) => self.eval(e, env)?, None => return Err("open range".into()) };
+                match (lo, hi) {
+                    (Val::Int { v: a, .. }, Val::Int { v: b, .. }) => {
+                        let b = if matches!(r.limits, syn::RangeLimits::Closed(_)) { b } else { b - 1 };
+                        if b - a > 100_000 {
+                            return Err("range too large to enumerate".into());
+                        }
+                        Ok(Val::List((a..=b).map(Val::int).collect()))
+                    }
+                    (a, b) => Err(format!("range {}..{}", a.show(), b.show())),
+                }
+            }
             Expr::Break(_) => Ok(Val::Ctor("$break".into(), vec![], BTreeMap::new())),
             Expr::Continue(_) => Ok(Val::Ctor("$continue".into(), vec![], BTreeMap::new())),
             Expr::Index(ix) => {
@@ -1129,6 +1188,15 @@ impl<'a> Evaluator<'a> {
                     Some(r) => r,
                     None => {
                         let last = p.path.segments.last().unwrap().ident.to_string();
+                        if let Some(tbl) = self.inline {
+                            if let Some((params, body)) = tbl.get(&last) {
+                                let mut e2 = Env::new();
+                                for (pn, a) in params.iter().zip(args.iter()) {
+                                    e2.insert(pn.clone(), a.clone());
+                                }
+                                return self.eval_fn_body(body, &mut e2);
+                            }
+                        }
                         if is_upper_first(&last) {
                             Ok(Val::Ctor(last, args.to_vec(), BTreeMap::new()))
                         } else {
